@@ -5,7 +5,7 @@ CONSTANTS
   Horizon = 13
   MaxNow = 40
   Sched = "prompt"
-  Weaken = "none"
+  Weakens = {"none"}
   Parts = {"timer", "ctl"}
   Heights = {0, 1, 2}
   MaxCRound = 3
@@ -17,6 +17,5 @@ INVARIANT NeverEarly
 INVARIANT Superseded
 INVARIANT DeadlineIsRef
 INVARIANT StaleNoChange
-PROPERTY StaleNoChangeStep
-PROPERTY CurrentBumps
+INVARIANT CurrentBumps
 INVARIANT AfterCancelQuiet
